@@ -89,13 +89,27 @@ CLAIMS = [
         "level_note": "NOT decided: behaviour of std on concrete strings and files, the .zy declarations in lib/std/builtin (validated at "
                       "link time by the matcher checked here), runtime/stub.rs (outside the workspace).",
     },
+    {
+        "id": "C01",
+        "technique": "static analysis: MIR dominance / who-may-construct gates, whole-crate error-discipline rule on typed HIR, audited arm tables for definitional equality and the Builtin classifier matcher, constructor inventory for hole nodes",
+        "level_text": "Decides structural necessary conditions of soundness (not the soundness theorem): the accepted outcome, the executable "
+                      "program and the package plan are constructed only in the listed functions and only on the success edges of their "
+                      "validators (infeasible `Err(..)?` edges pruned); the error list is append-only and tested before accepting; none of "
+                      "the ~780 call sites returning the not-yet-recorded error type drops its result; Lub still performs each of the "
+                      "audited field comparisons of all 24 type and 4 kind formers, rejects every off-diagonal pair and keeps its leaf "
+                      "guards; the classifier matcher compares every decisive case; Link has an explicit arm per variant; Value::Hole / "
+                      "Computation::Hole are built only where listed.",
+        "level_note": "NOT decided: progress/preservation of the typing rules, the coverage algorithm, termination of normalisation. The lub "
+                      "table (rules/lub_table.json) is the audited reference of today's comparisons; it encodes my reading of lub.rs. "
+                      "Known finding F7 (typed holes get stuck) is listed; F11 (found by the seeding agents) was repaired.",
+    },
 ]
 
 _PENDING = "check not built yet in this round (static rule designed in DESIGN.md, implementation pending)"
 NOT_APPLICABLE = [
     {"property_id": "C20", "reason": "behavioural equation through a 2800-line type-directed translation; no clause is both visible in the shape of elaborate/monadic/* and a necessary condition of the equation (DESIGN.md C20)"},
 ] + [{"property_id": p, "reason": _PENDING} for p in
-     ["C01", "C02", "C03", "C04", "C07", "C08", "C09", "C12", "C13", "C14", "C18", "C19"]]
+     ["C02", "C03", "C04", "C07", "C08", "C09", "C12", "C13", "C14", "C18", "C19"]]
 
 NOTES = ("Static analysis only: every verdict is computed from /repo's current working tree by the zyq rustc driver "
          "(facts) and repository-specific rules; nothing executes zydeco. Exit 2 (no VIOLATION line) means the tree could not "
